@@ -14,7 +14,9 @@
 (* ty: the type statement of a leaf [p (prefix or ""), n (built-in or typedef   *)
 (* name), rng ("" or the range text), en (enums [l, v], v = -1: not stated)];  *)
 (* units;  tds: typedefs [n, ty, dflt, units] defined inside the statement;    *)
-(* et: filled in by Expand with the effective type (C02).                      *)
+(* ty.base: [p, n] the base identity of an identityref ("" otherwise);         *)
+(* et: filled in by Expand with the effective type (C02).  A module also has   *)
+(* ids: identities [n, bases ([p, n] each)].                                   *)
 (* A GROUPING is [n, c, gs, tds].  A MODULE is                                *)
 (*   [name, prefix, sub (TRUE for a submodule), gs, tds, body, augs (module-  *)
 (*    level augments [path, c], path absolute), includes (names), imports     *)
@@ -36,14 +38,15 @@
 (***************************************************************************)
 EXTENDS Integers, Sequences, FiniteSets, TLC
 
-NoType == [p |-> "", n |-> "", rng |-> "", en |-> << >>]
-NoEt == [base |-> "", rngs |-> << >>, en |-> << >>]
+NoBase == [p |-> "", n |-> ""]
+NoType == [p |-> "", n |-> "", rng |-> "", en |-> << >>, base |-> NoBase]
+NoEt == [base |-> "", rngs |-> << >>, en |-> << >>, ids |-> {}]
 
 St(k, n) == [k |-> k, n |-> n, ref0 |-> [p |-> "", g |-> ""], cfg |-> "", mand |-> "", dflt |-> "", desc |-> "", iff |-> "",
              keys |-> << >>, c |-> << >>, gs |-> << >>, ref |-> << >>, aug |-> << >>,
              ty |-> NoType, units |-> "", tds |-> << >>, et |-> NoEt]
 
-Builtins == {"string", "int8", "int16", "int32", "int64", "uint8", "uint16", "uint32", "uint64", "boolean", "enumeration", "decimal64"}
+Builtins == {"identityref", "string", "int8", "int16", "int32", "int64", "uint8", "uint16", "uint32", "uint64", "boolean", "enumeration", "decimal64"}
 
 RECURSIVE Flatten(_)
 Flatten(ss) == IF ss = << >> THEN << >> ELSE Head(ss) \o Flatten(Tail(ss))
@@ -113,16 +116,51 @@ NumberEnums(en, highest) ==
              v == IF e.v >= 0 THEN e.v ELSE highest + 1
          IN << [l |-> e.l, v |-> v] >> \o NumberEnums(Tail(en), IF v > highest THEN v ELSE highest)
 
+\* identities: [m, n] pairs.  Everything the main module reaches through imports (of imports ...) is
+\* part of the schema; an identityref accepts its base and whatever is derived from it there (9.10.2)
+FamilyOf(ms, name) == LET owner == IF ms[name].sub THEN ms[name].belongs ELSE name
+                      IN { n \in DOMAIN ms : n = owner \/ (ms[n].sub /\ ms[n].belongs = owner) }
+
+RECURSIVE ReachFrom(_, _, _)
+ReachFrom(ms, frontier, seen) ==
+    IF frontier = {} THEN seen
+    ELSE LET next == UNION { UNION { { ms[f].imports[i].m : i \in DOMAIN ms[f].imports } : f \in FamilyOf(ms, n) } : n \in frontier }
+             new == (next \ seen) \cap DOMAIN ms
+         IN ReachFrom(ms, new, seen \cup new)
+
+ReachableModules(ms, main) == UNION { FamilyOf(ms, n) : n \in ReachFrom(ms, {main}, {main}) }
+
+IdentityOf(ms, mod, ref) ==
+    [m |-> ImportedModule(ms, mod, IF ref.p = "" THEN (IF ms[mod].sub THEN ms[ms[mod].belongs].prefix ELSE ms[mod].prefix) ELSE ref.p), n |-> ref.n]
+
+AllIdentities(ms, main) ==
+    UNION { { [m |-> (IF ms[mo].sub THEN ms[mo].belongs ELSE mo), n |-> ms[mo].ids[i].n,
+               bases |-> { IdentityOf(ms, mo, ms[mo].ids[i].bases[j]) : j \in DOMAIN ms[mo].ids[i].bases }] : i \in DOMAIN ms[mo].ids }
+            : mo \in ReachableModules(ms, main) }
+
+RECURSIVE DerivedClosure(_, _)
+DerivedClosure(all, S) ==
+    LET more == { [m |-> id.m, n |-> id.n] : id \in { x \in all : x.bases \cap S # {} } } IN
+    IF more \subseteq S THEN S ELSE DerivedClosure(all, S \cup more)
+
+Accepted(ms, main, mod, base) ==
+    IF base.n = "" THEN {}
+    ELSE { id.n : id \in DerivedClosure(AllIdentities(ms, main), { IdentityOf(ms, mod, base) }) }
+
+\* the module the meaning is taken of (module sets of this specification have their main module under "m")
+MainOf(ms) == "m"
+
 \* the derivation of a type statement (RFC 7950 7.3, 9): base built-in type, the restrictions
 \* stated along the chain (nearest first), and the default / units of the nearest typedef that has one
 RECURSIVE ResolveType(_, _, _, _)
 ResolveType(ms, mod, scope, ty) ==
     LET own == IF ty.rng = "" THEN << >> ELSE << ty.rng >> IN
     IF ty.p = "" /\ ty.n \in Builtins
-    THEN [base |-> ty.n, rngs |-> own, en |-> NumberEnums(ty.en, -1), dflt |-> "", units |-> ""]
+    THEN [base |-> ty.n, rngs |-> own, en |-> NumberEnums(ty.en, -1), dflt |-> "", units |-> "",
+          idbase |-> ty.base, idmod |-> mod]
     ELSE LET l == LookupTd(ms, mod, scope, ty)
              inner == ResolveType(ms, l.mod, l.scope, l.td.ty)
-         IN [base |-> inner.base, rngs |-> own \o inner.rngs, en |-> inner.en,
+         IN [base |-> inner.base, rngs |-> own \o inner.rngs, en |-> inner.en, idbase |-> inner.idbase, idmod |-> inner.idmod,
              dflt |-> IF l.td.dflt # "" THEN l.td.dflt ELSE inner.dflt,
              units |-> IF l.td.units # "" THEN l.td.units ELSE inner.units]
 
@@ -200,7 +238,7 @@ ExpandOne(ms, mod, on, scope, s) ==
     ELSE IF s.k \in {"leaf", "leaflist"} THEN
         \* the type is resolved where the leaf is written; what the leaf states itself wins
         LET r == ResolveType(ms, mod, scope, s.ty) IN
-        << [s EXCEPT !.et = [base |-> r.base, rngs |-> r.rngs, en |-> r.en],
+        << [s EXCEPT !.et = [base |-> r.base, rngs |-> r.rngs, en |-> r.en, ids |-> Accepted(ms, MainOf(ms), r.idmod, r.idbase)],
                      !.dflt = IF s.dflt # "" THEN s.dflt ELSE r.dflt,
                      !.units = IF s.units # "" THEN s.units ELSE r.units] >>
     ELSE LET kids == Expand(ms, mod, on, << [gs |-> s.gs, tds |-> s.tds] >> \o scope, s.c) IN
@@ -234,7 +272,8 @@ Effective(seq, inherited) ==
         LET s == seq[i]
             cfg == IF s.cfg = "" THEN inherited ELSE (s.cfg = "true")
         IN [k |-> s.k, n |-> s.n, cfg |-> cfg, mand |-> (s.mand = "true"), dflt |-> s.dflt, desc |-> s.desc,
-            keys |-> s.keys, units |-> s.units, et |-> s.et, c |-> Effective(s.c, cfg)] ]
+            keys |-> s.keys, units |-> s.units, et |-> IF s.k \in {"leaf", "leaflist"} THEN s.et ELSE NoEt,
+            c |-> Effective(s.c, cfg)] ]
 
 Meaning(ms, main, on) ==
     LET m == ms[main]
@@ -272,9 +311,11 @@ Diff(want0, got, unordered) ==
     ELSE IF \E i \in DOMAIN want : want[i].desc # got[i].desc THEN "description-differs"
     ELSE IF \E i \in DOMAIN want : want[i].keys # got[i].keys THEN "keys-differ"
     ELSE IF \E i \in DOMAIN want : want[i].units # got[i].units THEN "units-differ"
-    ELSE IF \E i \in DOMAIN want : want[i].et.base # got[i].et.base THEN "base-type-differs"
-    ELSE IF \E i \in DOMAIN want : want[i].et.rngs # got[i].et.rngs THEN "accumulated-ranges-differ"
-    ELSE IF \E i \in DOMAIN want : want[i].et.en # got[i].et.en THEN "enum-values-differ"
+    ELSE IF \E i \in DOMAIN want : want[i].k \in {"leaf", "leaflist"} /\ want[i].et.base # got[i].et.base THEN "base-type-differs"
+    ELSE IF \E i \in DOMAIN want : want[i].k \in {"leaf", "leaflist"} /\ want[i].et.rngs # got[i].et.rngs THEN "accumulated-ranges-differ"
+    ELSE IF \E i \in DOMAIN want : want[i].k \in {"leaf", "leaflist"} /\ want[i].et.en # got[i].et.en THEN "enum-values-differ"
+    ELSE IF \E i \in DOMAIN want : want[i].k \in {"leaf", "leaflist"} /\ want[i].et.ids # { got[i].et.ids[j] : j \in DOMAIN got[i].et.ids }
+         THEN "accepted-identities-differ"
     ELSE IF \E i \in DOMAIN want : Diff(want[i].c, got[i].c, want[i].k = "choice") # "ok" THEN
         LET i == CHOOSE i \in DOMAIN want : Diff(want[i].c, got[i].c, want[i].k = "choice") # "ok"
         IN Diff(want[i].c, got[i].c, want[i].k = "choice")
